@@ -37,7 +37,15 @@ fn pc_types() -> (TypeEnv, Vec<Ty>) {
     tys.push(Ty::Array(Box::new(Ty::Vec(4, f)), 5));
     tys.push(Ty::Array(Box::new(Ty::Scalar(f)), 5));
     tys.push(Ty::Array(Box::new(Ty::Struct("Inner3".into())), 2));
-    for s in ["PadInner", "TailPad", "Nested", "WithMat", "WithArr"] {
+    // sizes around and beyond common device limits (128 B, 256 B, 4 KiB): the range is the size of the type, whatever it is
+    tys.push(Ty::Array(Box::new(Ty::Vec(4, f)), 8));
+    tys.push(Ty::Array(Box::new(Ty::Vec(4, f)), 9));
+    tys.push(Ty::Array(Box::new(Ty::Mat(4, 4, f)), 3));
+    tys.push(Ty::Array(Box::new(Ty::Mat(4, 4, f)), 4));
+    tys.push(Ty::Array(Box::new(Ty::Scalar(Scalar::U32)), 65));
+    tys.push(Ty::Array(Box::new(Ty::Vec(4, f)), 300));
+    env.add(StructDef { name: "TwoMats".into(), members: vec![Member::plain("a", Ty::Mat(4, 4, f)), Member::plain("b", Ty::Mat(4, 4, f)), Member::plain("c", Ty::Vec(4, f))] });
+    for s in ["PadInner", "TailPad", "Nested", "WithMat", "WithArr", "TwoMats"] {
         tys.push(Ty::Struct(s.into()));
     }
     (env, tys)
@@ -296,7 +304,7 @@ pub fn run(tier: &str) -> i32 {
         rep.merge(r);
     }
     rep.traces_validated = rep.evaluations;
-    rep.rule = "29 push-constant types (scalars, vectors, all 9 f32 matrices, arrays of vec3/vec4/scalar/struct, structs with internal and tail padding, nested, with mat3x3, with array) x every non-empty entry set over {V,F,C} x every subset of entries using the variable x direct use (inside switch) / use through a helper (inside if+loop) x number of bind groups; plus shaders without push constant and with a push constant reachable only from an uncalled helper; x Rust/Glam representation. Oracle: WGSL size reference (cross-checked against naga Layouter per state), stages by construction. A stage reaching the variable only through a helper: the call at each of the 13 placement contexts in each of the 9 call forms, with another stage using it directly or not.".into();
+    rep.rule = "36 push-constant types (scalars, vectors, all 9 f32 matrices, arrays of vec3/vec4/scalar/struct, structs with internal and tail padding, nested, with mat3x3, with array; sizes 128/144/192/256/260/4800 bytes) x every non-empty entry set over {V,F,C} x every subset of entries using the variable x direct use (inside switch) / use through a helper (inside if+loop) x number of bind groups; plus shaders without push constant and with a push constant reachable only from an uncalled helper; x Rust/Glam representation. Oracle: WGSL size reference (cross-checked against naga Layouter per state), stages by construction. A stage reaching the variable only through a helper: the call at each of the 13 placement contexts in each of the 9 call forms, with another stage using it directly or not.".into();
     if rep.outcomes.len() < 10 {
         machinery("C13: too few distinct outcomes");
     }
